@@ -34,8 +34,9 @@ EI_NOTE = ("trusted: pyvc executor/encoding, z3/cvc5; hooks modelled as oracles 
            "BaseException-only exceptions pass through by design; partial correctness (termination / F9 hang not covered)")
 
 PROPS["C05"] = dict(
-    level="other", contracts=["contracts.extract_iter", "contracts.c13"],
-    unit_filter=lambda u: u.name in ("C05.extract_iter", "C13.extract_child", "C13.extract"),
+    level="other", contracts=["contracts.extract_iter", "contracts.c13", "contracts.glue_small"],
+    unit_filter=lambda u: u.name in ("C05.extract_iter", "C13.extract_child", "C13.extract", "C11.unwrap_generatorbased_contextmanager",
+                                     "C09.elaborate_exit_stack"),
     legs=[dict(name="c05_faults", cmd="PYTHONPATH={repo} " + PY312 + " legs/c05_faults.py")] + old_pythons("c05_faults", "c05_faults.py"), technique=TECH + "; bounded fault-enumeration leg",
     explanation="Deductive part (all inputs, unbounded): extract_iter (whole real body, 8 loops cut by invariants), extract_child and extract "
                 "are executed symbolically from their entries: no path lets an Exception escape, the error ledger grows by exactly the "
